@@ -77,6 +77,13 @@ claim("C07",
       "Trusted: the classification of each site into its kind (read from the code, table in Model/MapOrder.v); go/packages returning the same packages in every process; the inventory tool.",
       "Coq proof (permutation invariance per site kind) + static site inventory reflected in Coq + repeated-run hash oracle", "DESIGN.md §5 C07")
 
+claim("C01",
+      "Decided on every run by the real type checker: each output of gounions / randdata / sqlcrud (generate-sets on and off) that the tool accepts goes through x/tools/imports.Process and is type-checked with go/types next to its source package, "
+      "for corpus and synthesised modules. Coq carries the template obligations of the identifier-deciding parts (enum choice list = exactly the exported members and a well-formed expression list; Scan/Value receivers local and non-interface; no redeclaration), "
+      "proved for the model and evaluated in Coq on the identifiers parsed back (go/parser) from the real files.",
+      "Partial by nature: Go's type system is not formalised in Coq; the obligations proved do not imply compilation - the go/types oracle does, on the cases run. github.com/lib/pq is replaced by an API-compatible stand-in (not available offline).",
+      "go/types + goimports oracle on real outputs; Coq proof of template obligations + identifier correspondence", "DESIGN.md §5 C01")
+
 NOT_YET = "check not built yet in this round (planned, see DESIGN.md §6)"
 
 checks, na = [], []
